@@ -20,7 +20,7 @@ import Scico.Proofs.ProxSep
 import Scico.Proofs.ProxNonconvex
 import Scico.Proofs.ProxL1L2C
 import Scico.Proofs.ProxCubic
-import Scico.Proofs.ProxNuclear
+import Scico.Proofs.ProxNuclearDual
 import Scico.Proofs.ProxPhase
 import Scico.Proofs.ProxAxis
 
@@ -505,17 +505,15 @@ section Nuclear
 variable {m n k : ℕ}
 
 /-- **`NuclearNorm.prox` on `m × n` real matrices.**  `U`, `s`, `Vh` are what `svd(v, full_matrices=False)` returned
-    (CONTRACT, checked numerically by the tie: orthonormal columns of `U`, orthonormal rows of `Vh`, `s ≥ 0`,
-    `v = U diag(s) Vh`); `hex` is the contract that every matrix has such a decomposition; `nucNorm hex` is the sum of the
-    singular values (well defined by `sum_sv_unique`).  Then `svdU @ diag(maximum(0, svdS - lam)) @ svdV` carries the
-    sub-gradient certificate — hence is THE minimiser of `lam‖X‖_* + ½‖X - v‖_F²`, firmly non-expansive.
-    No trace inequality (von Neumann) is assumed: the proof needs Bessel and Cauchy–Schwarz only. -/
-theorem C02_nuclear
-    (hex : ∀ Z : MatE m n, ∃ (k : ℕ) (u : Fin k → EuclideanSpace ℝ (Fin m)) (s : Fin k → ℝ)
-      (w : Fin k → EuclideanSpace ℝ (Fin n)), IsSVD ℝ outerM Z u s w)
-    {lam : ℝ} (hlam : 0 < lam) (U : Fin m → Fin k → ℝ) (s : Fin k → ℝ) (Vh : Fin k → Fin n → ℝ)
+    (CONTRACT, checked numerically by the tie on every case: orthonormal columns of `U`, orthonormal rows of `Vh`, `s ≥ 0`,
+    `v = U diag(s) Vh`).  The nuclear norm is specified as the dual of the operator norm (`nucDual`, no SVD in its definition;
+    `C02_nuclear_norm_is_sum_sv`: it is the sum of the singular values wherever an SVD exists).  Then
+    `svdU @ diag(maximum(0, svdS - lam)) @ svdV` carries the sub-gradient certificate — hence is THE minimiser of
+    `lam‖X‖_* + ½‖X - v‖_F²`, firmly non-expansive.  Neither the existence of SVDs of other matrices nor a trace inequality
+    (von Neumann) is assumed: the proof needs Bessel and Cauchy–Schwarz only. -/
+theorem C02_nuclear {lam : ℝ} (hlam : 0 < lam) (U : Fin m → Fin k → ℝ) (s : Fin k → ℝ) (Vh : Fin k → Fin n → ℝ)
     (hU : Orthonormal ℝ (colE U)) (hV : Orthonormal ℝ (rowE Vh)) (hs : ∀ l, 0 ≤ s l) :
-    Cert Set.univ (nucNorm hex) lam (matE (usvMat U s Vh)) (matE (nuclearProx U s Vh lam)) := by
+    Cert Set.univ (nucDual ℝ (outerM (m := m) (n := n))) lam (matE (usvMat U s Vh)) (matE (nuclearProx U s Vh lam)) := by
   have e1 : usvMat U s Vh = fun i j => ∑ l, U i l * s l * Vh l j := by
     funext i j; exact vsum_eq _
   have e2 : nuclearProx U s Vh lam = fun i j => ∑ l, U i l * max 0 (s l - lam) * Vh l j := by
@@ -524,17 +522,15 @@ theorem C02_nuclear
     rw [vsum_eq]
     simp only [maxP_eq]
   rw [e1, e2]
-  exact cert_nuclear_matrix (fun _ _ _ _ _ h => nucNorm_eq isOuter_outerM hex h) hex hlam U s Vh hU hV hs
+  exact cert_nuclear_matrix_dual hlam U s Vh hU hV hs
 
 /-- **`NuclearNorm.prox` on complex matrices** (real inner product `Re tr(AᴴB)`): the same statement; `u_l` are the columns of
     `U`, `w_l` the conjugated rows of `Vh` (so that `U diag(s) Vh = Σ s_l u_l w_lᴴ`) -/
-theorem C02_nuclear_complex
-    (hex : ∀ Z : MatC m n, ∃ (k : ℕ) (u : Fin k → EuclideanSpace ℂ (Fin m)) (s : Fin k → ℝ)
-      (w : Fin k → EuclideanSpace ℂ (Fin n)), IsSVD ℂ outerC Z u s w)
-    {lam : ℝ} (hlam : 0 < lam) (U : Fin m → Fin k → ℝ × ℝ) (s : Fin k → ℝ) (Vh : Fin k → Fin n → ℝ × ℝ)
+theorem C02_nuclear_complex {lam : ℝ} (hlam : 0 < lam) (U : Fin m → Fin k → ℝ × ℝ) (s : Fin k → ℝ)
+    (Vh : Fin k → Fin n → ℝ × ℝ)
     (hU : Orthonormal ℂ (colC (fun i l => toC (U i l)))) (hV : Orthonormal ℂ (rowConjC (fun l j => toC (Vh l j))))
     (hs : ∀ l, 0 ≤ s l) :
-    Cert Set.univ (nucNorm hex) lam (matC (fun i j => toC (usvMatC U s Vh i j)))
+    Cert Set.univ (nucDual ℂ (outerC (m := m) (n := n))) lam (matC (fun i j => toC (usvMatC U s Vh i j)))
       (matC (fun i j => toC (nuclearProxC U s Vh lam i j))) := by
   have key : ∀ t : Fin k → ℝ, (fun i j => toC ((∑ l, t l * (cmul (U i l) (Vh l j)).1, ∑ l, t l * (cmul (U i l) (Vh l j)).2)))
       = fun i j => ∑ l, ((t l : ℝ) : ℂ) * (toC (U i l) * toC (Vh l j)) := by
@@ -554,7 +550,13 @@ theorem C02_nuclear_complex
     rw [← key (fun l => max 0 (s l - lam))]; funext i j
     simp only [nuclearProxC, nuclearSvProx, vsum_eq, maxP_eq]
   rw [e1, e2]
-  exact cert_nuclear_matrixC hex hlam _ s _ hU hV hs
+  exact cert_nuclear_matrixC_dual hlam _ s _ hU hV hs
+
+/-- the specification `nucDual` (dual of the operator norm) IS the sum of the singular values on every matrix that has a thin
+    SVD — i.e. the value `NuclearNorm.__call__` computes, `sum(svd(x, compute_uv=False))` -/
+theorem C02_nuclear_norm_is_sum_sv {Z : MatE m n} {u : Fin k → EuclideanSpace ℝ (Fin m)} {s : Fin k → ℝ}
+    {w : Fin k → EuclideanSpace ℝ (Fin n)} (h : IsSVD ℝ outerM Z u s w) :
+    nucDual ℝ (outerM (m := m) (n := n)) Z = ∑ i, s i := nucDual_eq_sum_sv isOuter_outerM h
 
 /-- the sum of the singular values is independent of the thin SVD chosen (what makes "the nuclear norm" of the code,
     `sum(svd(x, compute_uv=False))`, a function of the matrix) -/
@@ -668,7 +670,7 @@ example : Orthonormal ℝ (colE (fun i l : Fin 2 => if i = l then (1 : ℝ) else
   intro i j
   fin_cases i <;> fin_cases j <;> simp [colE, PiLp.inner_apply, EuclideanSpace.norm_eq]
 
--- the SVD contract `hex` is satisfiable: every 1 × 1 matrix z is |z| · (1)(sign z)ᵀ
+-- thin SVDs in the sense of `IsSVD` exist: every 1 × 1 matrix z is |z| · (1)(sign z)ᵀ (the hypotheses of C02_nuclear_norm_is_sum_sv)
 example : ∀ Z : MatE 1 1, ∃ (k : ℕ) (u : Fin k → EuclideanSpace ℝ (Fin 1)) (s : Fin k → ℝ)
     (w : Fin k → EuclideanSpace ℝ (Fin 1)), IsSVD ℝ outerM Z u s w := by
   intro Z
